@@ -39,6 +39,8 @@ func main() {
 		err = cmdConfig(*in, *out)
 	case "tags":
 		err = cmdTags(*in, *out)
+	case "scan":
+		err = cmdScan(*in, *out)
 	case "cache":
 		err = cmdCache(*in, *out, *names)
 	default:
